@@ -304,9 +304,9 @@ RAW_VMSTAT = [None, b"", b"pswpin 5\npswpout 6\n", b"pswpin 5\n", b"pswpout 6\n"
 
 
 def gen_cases(rng, tier):
-    n_rand = {"quick": 360, "thorough": 8000, "search": 700}[tier]
-    n_swap = {"quick": 300, "thorough": 6000, "search": 400}[tier]
-    n_raw = {"quick": 150, "thorough": 2500, "search": 200}[tier]
+    n_rand = {"quick": 300, "thorough": 8000, "search": 700}[tier]
+    n_swap = {"quick": 240, "thorough": 6000, "search": 400}[tier]
+    n_raw = {"quick": 120, "thorough": 2500, "search": 200}[tier]
     reps = {"quick": 1, "thorough": 6, "search": 1}[tier]
     amodes = ["absent", "zero", "value", "gt", "eq"]
     zmodes = ["absent", "empty", "zones", "zones", "bigwm"]
